@@ -5,6 +5,8 @@ operation, plus a sidecar JSON with, for every returned value, the num.py line t
     PYENV_VERSION=3.12.1 python3 num_harness.py --seed S --pairs N --out CASES --keys SIDECAR
                                                 [--trace all|none] [--num-py PATH]
     ... num_harness.py --probe "<python expression over the module's names>"   (prints repr)
+    ... num_harness.py --redo CASES --out NEW --keys SIDECAR    re-executes the operations of existing
+        `numcheck` lines on the current code (operands rebuilt with the interning constructors)
 
 The module under test is loaded from --num-py / $NUM_PY_PATH / /repo/tm/num.py by file path (tm.num
 imports only the standard library; loading by path keeps tm/__init__ and the Rust extension out).
@@ -71,9 +73,18 @@ class Tracer:
         self.mon = sys.monitoring
         self.tool = self.mon.PROFILER_ID
         self.path = path
-        self.lines = open(path).read().split("\n")
+        text = open(path).read()
+        self.lines = text.split("\n")
+        # line -> (first, last) line of the enclosing `return` statement
+        self.ret_range = {}
+        import ast
+        for node in ast.walk(ast.parse(text)):
+            if isinstance(node, ast.Return):
+                for ln in range(node.lineno, (node.end_lineno or node.lineno) + 1):
+                    self.ret_range[ln] = (node.lineno, node.end_lineno or node.lineno)
         self.codes = set()
         self.events = []
+        self.stack = []
         self.depth = 0
         self.pos = {}
         self.on = False
@@ -122,36 +133,50 @@ class Tracer:
             self.on = False
 
     def _start(self, code, off):
+        back = sys._getframe(1).f_back       # the Python frame whose instruction made this call
+        self.stack.append((back.f_code, back.f_lineno) if back is not None else (None, 0))
         self.depth += 1
 
     def _return(self, code, off, val):
-        self.events.append((self.depth, code, off, val))
+        site = self.stack.pop() if self.stack else (None, 0)
+        self.events.append((self.depth, code, off, val, site[0], site[1]))
         self.depth -= 1
 
     def _unwind(self, code, off, exc):
         if code in self.codes:
+            if self.stack:
+                self.stack.pop()
             self.depth -= 1
 
     def reset(self):
         self.events.clear()
+        self.stack.clear()
         self.depth = 0
 
     def origin(self):
-        """(qualname, line number, stripped line text) of the innermost pass-through return"""
+        """(qualname, line number, statement text) of the innermost pass-through return: starting
+        from the last return event, step into the preceding event while it is one frame deeper, was
+        called from inside the very `return` statement that is returning, and returned the
+        identical object"""
         ev = self.events
         if not ev:
             return ("<no num.py frame>", 0, "")
         i = len(ev) - 1
-        d, code, off, val = ev[i]
+        d, code, off, val = ev[i][:4]
+        line = self._line(code, off)
         while i > 0:
-            d2, c2, o2, v2 = ev[i - 1]
-            if d2 == d + 1 and v2 is val:
+            d2, c2, o2, v2, caller, call_line = ev[i - 1]
+            rng = self.ret_range.get(line)
+            if (d2 == d + 1 and v2 is val and caller is code and rng is not None
+                    and rng[0] <= call_line <= rng[1]):
                 i -= 1
                 d, code, off = d2, c2, o2
+                line = self._line(code, off)
             else:
                 break
-        line = self._line(code, off)
-        return (code.co_qualname, line, self.lines[line - 1].strip() if line else "")
+        rng = self.ret_range.get(line, (line, line))
+        text = " ".join(self.lines[k - 1].strip() for k in range(rng[0], rng[1] + 1)) if line else ""
+        return (code.co_qualname, rng[0], text)
 
     def _line(self, code, off):
         p = self.pos.get(code)
@@ -548,6 +573,50 @@ class Run:
         return True
 
 
+def rebuild_from(mod, toks):
+    """prefix serialisation -> object, through the library's interning constructors"""
+    t = toks.pop(0)
+    if t == "+":
+        l = rebuild_from(mod, toks)
+        r = rebuild_from(mod, toks)
+        return mod.make_add(l, r)
+    if t == "*":
+        l = rebuild_from(mod, toks)
+        r = rebuild_from(mod, toks)
+        return mod.make_mul(l, r)
+    if t == "/":
+        n = rebuild_from(mod, toks)
+        return mod.make_div(n, int(toks.pop(0)))
+    if t == "^":
+        b = int(toks.pop(0))
+        e = rebuild_from(mod, toks)
+        exps = mod.EXPS[b]            # make_exp would re-canonicalise the base
+        if e not in exps:
+            exps[e] = mod.Exp(b, e)
+        return exps[e]
+    return int(t)
+
+
+def redo(run, path):
+    for line in open(path):
+        line = line.rstrip("\n")
+        if not line.startswith("numcheck "):
+            continue
+        head, text = line.split(" | ", 1)
+        op = head.split(" ")[1]
+        sa, sb, _ = text.split(" ; ")
+        try:
+            a = rebuild_from(run.m, sa.split())
+            b = rebuild_from(run.m, sb.split())
+        except Exception as e:      # noqa: BLE001
+            run.lines.append(f"numcheck {op} - | {sa} ; {sb} ; !Rebuild{type(e).__name__}")
+            run.case_key.append(-1)
+            run.case_line.append(0)
+            continue
+        if op in OPS:
+            run.apply(op, a, b)
+
+
 def on_alarm(signum, frame):
     raise OpTimeout()
 
@@ -561,6 +630,7 @@ def main():
     ap.add_argument("--trace", default="all", choices=("all", "none"))
     ap.add_argument("--num-py", default=os.environ.get("NUM_PY_PATH") or DEFAULT_NUM)
     ap.add_argument("--probe", default=None)
+    ap.add_argument("--redo", default=None)
     a = ap.parse_args()
     sys.setrecursionlimit(4000)
     mod = load_num(a.num_py)
@@ -577,6 +647,10 @@ def main():
         run.tr.start()
     tries = 0
     try:
+        if a.redo is not None:
+            signal.setitimer(signal.ITIMER_REAL, 600.0)
+            redo(run, a.redo)
+            a.pairs = 0
         while run.stats["pairs"] < a.pairs and tries < 20 * a.pairs + 100:
             tries += 1
             signal.setitimer(signal.ITIMER_REAL, 20.0)
